@@ -2,6 +2,7 @@ import Driver.Util
 import Driver.SM
 import Driver.Beh
 import Driver.Pyg
+import Driver.Lit
 open Lean Drv
 
 /-- dispatch on the prefix of "op" -/
@@ -12,6 +13,7 @@ def dispatch (j : Json) : R Json := do
   | "sm" | "dec" => SMD.handle op j
   | "beh" => BehD.handle op j
   | "pyg" => PygD.handle op j
+  | "lit" => LitD.handle op j
   | _ => throw s!"unknown op {op}"
 
 partial def loop (h : IO.FS.Stream) (out : IO.FS.Stream) : IO Unit := do
